@@ -205,7 +205,10 @@ func (x *c12exec) run(e common.Env, p *common.Part) *c12fail {
 		thr = h.N - 2
 	}
 	_, pol := policyByIndex(h.Idx, rng, x.nodes)
-	x.c = newRCluster(cluster.Config{Map: m, Silent: h.Mode == "silent", Barrier: h.Mode == "barrier", Threshold: thr, Script: c12script, Nodes: x.nodes}, rng, pol)
+	// the log sink is slow at the last message a key generation logs before it returns (a window in which the call has finished its
+	// work but still owns the session's state)
+	x.c = newRCluster(cluster.Config{Map: m, Silent: h.Mode == "silent", Barrier: h.Mode == "barrier", Threshold: thr, Script: c12script, Nodes: x.nodes,
+		Logger: common.SlowLog{Prefixes: []string{"DKG completed"}, Delay: 3 * time.Millisecond}}, rng, pol)
 	defer x.c.Stop()
 	threshold.SetVerifHook(x.hook)
 	defer threshold.SetVerifHook(func(string) {})
@@ -329,6 +332,48 @@ func (x *c12exec) run(e common.Env, p *common.Part) *c12fail {
 				p.Count("held_windows", 1)
 			}
 			time.Sleep(5 * time.Millisecond) // the released continuations run (they must not register anything)
+		case "keygen-reissued-while-returning":
+			// a second KeyGen is issued at one node at the moment its first KeyGen has finished the protocol and is on its way out
+			// (the backend's KeyGen has returned; the orchestrator still logs and cleans up). It may be refused or admitted (then it
+			// times out: its peers do not take part); nothing may panic and the next key generation must work.
+			if h.Mode == "silent" {
+				continue
+			}
+			x.pick(tss.DkgTopicName, x.nodes)
+			victim := x.nodes[rng.Intn(len(x.nodes))]
+			ctx, cancel := context.WithTimeout(context.Background(), x.dl(6000))
+			done := make(chan map[uint16]callRes, 1)
+			go func() {
+				done <- x.calls(x.nodes, func(u uint16) ([]byte, error) { return x.c.Schemes[u].KeyGen(ctx, h.N, h.N-1) })
+			}()
+			var second callRes
+			issued := false
+			deadline := time.Now().Add(x.dl(3000))
+			for time.Now().Before(deadline) {
+				if b := x.c.LastBackend(victim); b != nil && b.Session == x.c.Session() && b.State() == backend.StDone {
+					time.Sleep(time.Duration(200+rng.Intn(1500)) * time.Microsecond)
+					c2, cn := context.WithTimeout(context.Background(), x.dl(80))
+					o, e2 := x.c.Schemes[victim].KeyGen(c2, h.N, h.N-1)
+					cn()
+					second = callRes{victim, o, e2}
+					issued = true
+					break
+				}
+				time.Sleep(50 * time.Microsecond)
+			}
+			res := <-done
+			cancel()
+			for u, r := range res {
+				if r.err != nil {
+					return fail("concurrent-sessions-interfere", fmt.Sprintf("KeyGen failed at node %d while a second KeyGen was issued at node %d as the first one was returning: %v", u, victim, r.err), timedOut(r.err))
+				}
+			}
+			if issued && second.err == nil {
+				return fail("completed-without-quorum", fmt.Sprintf("a second KeyGen issued at node %d alone returned nil", victim), false)
+			}
+			if issued {
+				p.Count("held_windows", 1)
+			}
 		case "keygen-second-sync-lost":
 			// loud mode: the first synchronisation completes, the traffic of the second one (on the agreed member list) is lost, so
 			// every KeyGen ends at its deadline INSIDE the second synchronisation; afterwards that lost traffic arrives late
@@ -776,7 +821,7 @@ func genC12(rng *rand.Rand, idx int, e common.Env) c12hist {
 				kinds = append(kinds, "keygen-ok", "keygen-with-foreign-traffic")
 			}
 		} else {
-			kinds = []string{"keygen-ok", "keygen-with-foreign-traffic", "keygen-duplicate", "keygen-missing-caller", "keygen-cancel", "keygen-cancel-held", "keygen-second-sync-lost", "sign-ok", "sign-ok", "sign-too-few", "sign-cancel", "sign-cancel-held",
+			kinds = []string{"keygen-ok", "keygen-with-foreign-traffic", "keygen-duplicate", "keygen-missing-caller", "keygen-cancel", "keygen-cancel-held", "keygen-second-sync-lost", "keygen-reissued-while-returning", "sign-ok", "sign-ok", "sign-too-few", "sign-cancel", "sign-cancel-held",
 				"sign-reuse-at-once", "sign-two-topics", "sign-duplicate", "sign-duplicate-racing", "late-replay", "sign-with-foreign-traffic", "keygen-and-sign-at-once"}
 		}
 		k := kinds[rng.Intn(len(kinds))]
@@ -790,7 +835,7 @@ func genC12(rng *rand.Rand, idx int, e common.Env) c12hist {
 			if h.Mode != "silent" {
 				h.Ops = append(h.Ops, c12op{Kind: "sign-ok", Topic: t})
 			}
-		case "keygen-missing-caller", "keygen-cancel", "keygen-cancel-held", "keygen-second-sync-lost":
+		case "keygen-missing-caller", "keygen-cancel", "keygen-cancel-held", "keygen-second-sync-lost", "keygen-reissued-while-returning":
 			h.Ops = append(h.Ops, c12op{Kind: "keygen-ok"})
 		case "sign-ok":
 			if h.Mode != "silent" && rng.Intn(3) == 0 {
@@ -802,7 +847,7 @@ func genC12(rng *rand.Rand, idx int, e common.Env) c12hist {
 }
 
 func unitC12(e common.Env, p *common.Part) {
-	p.Rule = "PRNG histories of 8..40 operations over 3..5 nodes and 2..4 topics on one cluster of real schemes (loud with real disc.Member, barrier, silent): successful / too-few-callers / cancelled KeyGen and Sign, cancellation with the continuation held at a verif point or inside the protocol instance's Init (between instance creation and handler registration), re-use of a topic the moment the previous call returned (continuation held after the result hand-off), two topics at once, a key generation and a signing session at once, duplicate Sign on a live topic, two Sign calls on one topic issued together at one node (brought into the admission step together by the consumer-supplied synchroniser factory), replay of a finished session's traffic, a key generation whose second synchronisation's traffic is lost and arrives after the call ended, foreign-node and non-member traffic during a live session; every failed or cancelled operation is followed by a successful one on the same topic; distinct key = history hash; non-trivial when the history re-uses a topic, overlaps sessions or injects late/foreign traffic"
+	p.Rule = "PRNG histories of 8..40 operations over 3..5 nodes and 2..4 topics on one cluster of real schemes (loud with real disc.Member, barrier, silent): successful / too-few-callers / cancelled KeyGen and Sign, cancellation with the continuation held at a verif point or inside the protocol instance's Init (between instance creation and handler registration), re-use of a topic the moment the previous call returned (continuation held after the result hand-off), two topics at once, a key generation and a signing session at once, duplicate Sign on a live topic, two Sign calls on one topic issued together at one node (brought into the admission step together by the consumer-supplied synchroniser factory), replay of a finished session's traffic, a key generation whose second synchronisation's traffic is lost and arrives after the call ended, a second KeyGen issued at a node while its first one is on its way out (slow log sink at the last message it logs), foreign-node and non-member traffic during a live session; every failed or cancelled operation is followed by a successful one on the same topic; distinct key = history hash; non-trivial when the history re-uses a topic, overlaps sessions or injects late/foreign traffic"
 	p.Assumptions = append(p.Assumptions, "silent-mode histories use a fresh topic per session (re-use in silent mode is the separate sub-oracle c12silent); expected failures use short deadlines, expected successes a 6 s watchdog with a replay of the whole history at 5x deadlines before a deadline is judged")
 	n := e.Pick(64, 4000)
 	for i := 0; i < n; i++ {
